@@ -186,28 +186,56 @@ SEEDS = {
 }
 
 
+def from_notes(sid):
+    """Round 4 (focused prompts): change / needs are taken from the agent's notes."""
+    path = os.path.join(ROOT, sid, 'agent_notes.md')
+    text = open(path).read() if os.path.exists(path) else ''
+    secs = re.split(r'\n(?=#+ )', text)
+    def pick(pat):
+        for sec in secs:
+            head = sec.split('\n', 1)[0]
+            if re.search(pat, head, re.I):
+                body = sec.split('\n', 1)[1] if '\n' in sec else ''
+                return re.sub(r'\s+', ' ', body).strip()[:900]
+        return ''
+    head_change = ''
+    for sec in secs:
+        h = sec.split('\n', 1)[0]
+        if re.search(r'change|bug', h, re.I) and not re.search(r'manifest|trigger|needed', h, re.I):
+            head_change = h.lstrip('# ').strip()
+            break
+    prop = 'C' + re.match(r'c(\d+)', sid).group(1)
+    return dict(prop=prop, site=head_change or 'see agent_notes.md', change=pick(r'change|the bug|idea') or 'see agent_notes.md',
+                needs=pick(r'manifest|trigger|needed|needs') or 'see agent_notes.md',
+                origin_extra='fourth round: the prompt carried the full property record and a FOCUS file taken from the property\'s own anchors')
+
+
 def main():
     conf = {}
     p = os.path.join(ROOT, 'confirmations.txt')
     if os.path.exists(p):
         for line in open(p):
-            m = re.match(r'=== (C\d+(?:-\d+)?)\s+(.*)', line.strip())
+            m = re.match(r'=== ([Cc]\d+(?:-\d+|[a-e])?)\s+(.*)', line.strip())
             if m:
                 conf[m.group(1).lower()] = m.group(2)
     results = {}
     p = os.path.join(ROOT, 'results.txt')
     if os.path.exists(p):
         for line in open(p):
-            m = re.match(r'(c\d+(?:-\d+)?) vs (C\d+): exit=(\d+)\s*(?:\d+s)?\s*(.*)', line.strip())
+            m = re.match(r'(c\d+(?:-\d+|[a-e])?) vs (C\d+): exit=(\d+)\s*(?:\d+s)?\s*(.*)', line.strip())
             if m:
                 results.setdefault(m.group(1), {})[m.group(2)] = dict(exit=int(m.group(3)), detected=int(m.group(3)) == 1, reported=m.group(4).strip())
-    for sid, s in sorted(SEEDS.items()):
+    seeds = dict(SEEDS)
+    for sid in sorted(os.listdir(ROOT)):
+        if os.path.isdir(os.path.join(ROOT, sid)) and sid not in seeds and re.match(r'c\d+[a-e]$', sid):
+            seeds[sid] = from_notes(sid)
+    for sid, s in sorted(seeds.items()):
         d = os.path.join(ROOT, sid)
         if not os.path.isdir(d):
             print('missing', d); continue
         meta = {
             'property': s['prop'],
-            'origin': 'written by a fresh sub-agent that was given only the text of the property and its own scratch worktree of /repo',
+            'origin': 'written by a fresh sub-agent that was given only the text of the property and its own scratch worktree of /repo' + ('; ' + s['origin_extra'] if 'origin_extra' in s else ''),
             'changed': s['site'],
             'change': s['change'],
             'needs_to_manifest': s['needs'],
@@ -220,7 +248,7 @@ def main():
         if 'note' in s:
             meta['note'] = s['note']
         json.dump(meta, open(os.path.join(d, 'meta.json'), 'w'), indent=1)
-    print('wrote', len(SEEDS), 'meta.json files')
+    print('wrote', len(seeds), 'meta.json files')
 
 
 if __name__ == '__main__':
